@@ -50,7 +50,11 @@ RULE = ("every history of depth 4 (quick) / 5 (thorough) over 13 letters (thorou
         "complex/strand -> macrostate -> reaction on four slots with drops in every order, redefinitions with other "
         "parameters, look-ups, a query, turns and ~; random and drop-heavy random histories over all 25 classes; after every "
         "step the weakref liveness of every object ever handed out is compared with the model's liveness flags "
-        "(gc disabled: release must be immediate), together with both registries; distinct = distinct final observable states")
+        "(gc disabled: release must be immediate), together with both registries; distinct = distinct final observable states; "
+        "stated on the implementation: every public property, setter, method and special method of the five classes (found with "
+        "dir()), with arguments in and out of range and caught errors, on connected and disconnected complexes, strands, "
+        "macrostates and reactions, then all references (or all but a few) dropped: only what the kept objects contain survives, "
+        "the registries hold nothing else and the released names are redefinable")
 
 
 def reader_release(ctx):
@@ -102,9 +106,318 @@ def containers_while_rotating(ctx):
     ctx.cov["correspondence"]["containers-while-rotating(impl)"] = {"cases": len(reqs), "failures": bad}
 
 
+# ---------------------------------------------------------------------------
+# querying never prolongs a lifetime: every public property, setter, method and special method (discovered on the
+# imported classes), with arguments in and out of range, on connected and disconnected complexes, strands, macrostates
+# and reactions; then references are dropped (all, or all but a few) -- direct statement on the implementation
+def _loc(rng, seq):
+    strands = [len(p) for p in "".join("+" if x == "+" else "d" for x in seq).split("+")]
+    if rng.random() < 0.8:
+        si = rng.randrange(len(strands))
+        return ["#t", si, rng.randrange(max(1, strands[si]))]
+    return ["#t", rng.randrange(-1, len(strands) + 1), rng.randrange(-1, 4)]
+
+
+def _query(rng, S, ref, name, what, default=False):
+    """one query [ref, name, args, mode] on object `ref` of system S"""
+    kind, idx = ref
+    seq = S[2][idx][0] if kind == "C" else ["a"]
+    others = [[k, i] for k, n in (("D", len(S[1])), ("C", len(S[2])), ("M", len(S[3])), ("R", len(S[4]))) for i in range(n)]
+    mode = 0 if default else rng.randrange(2)
+    if what == "get":
+        return [ref, name, None, mode]
+    if what == "set":
+        if name == "turns":
+            v = rng.randrange(-3, 6)
+        elif name == "concentration":
+            v = rng.choice([None, ["#t", rng.choice(["initial", "constant"]), rng.choice([0, 5, 2.5]), rng.choice(["M", "nM", "uM"])]])
+        elif name == "rate_constant":
+            v = rng.choice([7, 0.5, ["#t", 3], ["#t", 1e6, "/M/s"], ["#t", 2.5, "/s"]])
+        else:
+            v = rng.choice(["x", 7, None, ["@"] + rng.choice(others)])
+        return [ref, "=" + name, [v], mode]
+    if what == "dunder":
+        if name in ("__repr__", "__str__", "__len__", "__hash__", "__invert__"):
+            return [ref, name, [], mode]
+        same = [o for o in others if o[0] == kind]
+        other = ref if default else rng.choice([ref, rng.choice(same), rng.choice(others), "x", None])
+        return [ref, name, [["@"] + other if isinstance(other, list) else other], mode]
+    # methods
+    if name in ("rotate", "rotate_pt"):
+        args = [] if default or rng.random() < 0.5 else [rng.randrange(0, 5)]
+    elif name == "strand_length":
+        args = [0 if default else rng.randrange(-1, 4)]
+    elif name in ("get_loop_index", "get_domain", "get_paired_loc"):
+        args = [["#t", 0, 0] if default else _loc(rng, seq)]
+    elif name == "rotate_pairtable_loc":
+        args = [["#t", 0, 0] if default else _loc(rng, seq), rng.randrange(-2, 4)]
+    elif name == "concentrationformat":
+        args = [rng.choice(["M", "nM", "uM", "furlong"])]
+    elif name == "rateformat":
+        args = [rng.choice(["/M/s", "/nM/s", "/s", "/M/M/h", "x"])]
+    else:
+        args = []
+    return [ref, name, args, mode]
+
+
+def _system(rng, structs, shape=None):
+    """-> [dk, doms, cplxs, macros, rxns] with pairwise distinct objects"""
+    import gen_structs as gs, gen_pil
+    lengths = {b: rng.choice([3, 5, 5, 9, 15]) for b in "abc"}
+    cplxs, seen = [], set()
+    want = 1 if shape is not None else rng.randrange(1, 4)
+    while len(cplxs) < want:
+        if shape is None and rng.random() < 0.2 or shape == "strand":
+            sq = [rng.choice("abc") + rng.choice(["", "", "*"]) for _ in range(rng.randrange(1, 4))]
+            st, key = None, (tuple(sq), None)
+        else:
+            st = shape if shape is not None else rng.choice(structs)
+            sq = gs.seq_for(rng, st, names=("a", "b", "c"))
+            key = gen_pil.canon(sq, list(st))
+        if key in seen:
+            continue
+        seen.add(key)
+        cplxs.append([sq, st, f"X{len(cplxs)}", rng.randrange(2)])
+    used = sorted({x for c in cplxs for x in c[0] if x != "+"} | ({rng.choice("abc")} if rng.random() < 0.3 else set()))
+    doms = [[n, lengths[n.rstrip("*")]] for n in used]
+    idx = list(range(len(cplxs)))
+    rng.shuffle(idx)
+    macros = []
+    for _ in range(rng.randrange(0, 3)):          # disjoint member sets: distinct representatives
+        k = rng.randrange(1, 3)
+        if len(idx) >= k:
+            macros.append([[idx.pop() for _ in range(k)], rng.randrange(2)])
+    rxns, seen = [], set()
+    for _ in range(rng.randrange(0, 3)):
+        over = "m" if macros and rng.random() < 0.4 else "c"
+        n = len(macros) if over == "m" else len(cplxs)
+        re = [rng.randrange(n) for _ in range(rng.randrange(1, 3))]
+        pr = [rng.randrange(n) for _ in range(rng.randrange(1, 3))]
+        rtype = "condensed" if over == "m" else rng.choice(["bind21", "open", "branch-3way"])
+        k = rng.randrange(2)
+        key = (tuple(sorted(re)), tuple(sorted(pr)), rtype, k)
+        if key not in seen:
+            seen.add(key)
+            rxns.append([re, pr, rtype, over, k])
+    return [rng.randrange(2), doms, cplxs, macros, rxns]
+
+
+def _refs(S):
+    return [[k, i] for k, n in (("C", len(S[2])), ("C", len(S[2])), ("D", len(S[1])), ("M", len(S[3])), ("R", len(S[4]))) for i in range(n)]
+
+
+def _cat_kind(S, ref):
+    return "S" if ref[0] == "C" and S[2][ref[1]][1] is None else ref[0]
+
+
+def _qr_snippet(arg):
+    dk, doms, cplxs, macros, rxns, queries, keep = arg
+
+    def val(a):
+        if isinstance(a, list) and a and a[0] == "#t":
+            return "(" + "".join(val(x) + ", " for x in a[1:]) + ")"
+        if isinstance(a, list) and len(a) == 3 and a[0] == "@":
+            return f"{a[1]}[{a[2]}]"
+        return repr(a)
+    L = ["import gc, weakref, operator; gc.disable()   # release must not depend on the cyclic collector",
+         "from dsdobjects.base_classes import DomainS, ComplexS, StrandS, MacrostateS, ReactionS",
+         "class DomA(DomainS): pass", "class CplxA(ComplexS): pass", "class StrandA(StrandS): pass",
+         "class MacA(MacrostateS): pass", "class RxnA(ReactionS): pass",
+         f"dom = {['DomainS', 'DomA'][dk]}",
+         "d = {n: dom(n, l) for n, l in " + repr([tuple(x) for x in doms]) + "}",
+         "D = list(d.values()); C = []; M = []; R = []"]
+    for seq, sst, name, k in cplxs:
+        sq = "[" + ", ".join("'+'" if x == "+" else f"d[{x!r}]" for x in seq) + "]"
+        if sst is None:
+            L.append(f"C.append({['StrandS', 'StrandA'][k]}({sq}, name={name!r}))")
+        else:
+            L.append(f"C.append({['ComplexS', 'CplxA'][k]}({sq}, list({sst!r}), name={name!r}))")
+    for ms, k in macros:
+        L.append(f"M.append({['MacrostateS', 'MacA'][k]}([" + ", ".join(f"C[{i}]" for i in ms) + "]))")
+    for re, pr, rtype, over, k in rxns:
+        p = "C" if over == "c" else "M"
+        L.append(f"R.append({['ReactionS', 'RxnA'][k]}([" + ", ".join(f"{p}[{i}]" for i in re) + "], [" +
+                 ", ".join(f"{p}[{i}]" for i in pr) + f"], {rtype!r}))")
+    L.append("refs = {k: [(repr(o), weakref.ref(o)) for o in v] for k, v in (('D', D), ('C', C), ('M', M), ('R', R))}")
+    L.append("del d")
+    for (kind, i), name, args, mode in queries:
+        o = f"{kind}[{i}]"
+        if name.startswith("="):
+            stmt = f"{o}.{name[1:]} = {val(args[0])}"
+        else:
+            if name == "__invert__":
+                e = f"~{o}"
+            elif name.startswith("__") and args is not None:
+                f = {"__repr__": "repr", "__str__": "str", "__len__": "len", "__hash__": "hash"}.get(name, "operator." + name)
+                e = f"{f}(" + ", ".join([o] + [val(a) for a in args]) + ")"
+            else:
+                e = f"{o}.{name}" + ("" if args is None else "(" + ", ".join(val(a) for a in args) + ")")
+            stmt = f"r = {e}; " + ("next(r, None) if hasattr(r, '__next__') else None" if mode else
+                                  "list(r) if hasattr(r, '__next__') else None") + "; del r"
+        L.append(f"try: {stmt}\nexcept Exception: pass")
+    L.append("kept = [" + ", ".join(f"{k}[{i}]" for k, i in keep) + "]")
+    L.append("del D, C, M, R")
+    L.append("print('alive:', [n for v in refs.values() for n, r in v if r() is not None], ' kept:', kept)")
+    return "\n".join(L)
+
+
+def _qr_bad(r):
+    from common import Err
+    return isinstance(r, Err) or bool(r[0])
+
+
+def _qr_remove(arg, kind, i):
+    """the request without object (kind, i), or None when something refers to it"""
+    import copy
+    dk, doms, cplxs, macros, rxns, queries, keep = copy.deepcopy(arg)
+
+    def refers(x):
+        if isinstance(x, list):
+            if len(x) == 3 and x[0] == "@" and x[1] == kind and x[2] == i:
+                return True
+            return any(refers(y) for y in x)
+        return False
+    if any(q[0] == [kind, i] or refers(q[2]) for q in queries) or [kind, i] in keep:
+        return None
+    if kind == "D" and any(doms[i][0] in c[0] for c in cplxs):
+        return None
+    if kind == "C" and (any(i in m[0] for m in macros) or any(r[3] == "c" and i in r[0] + r[1] for r in rxns)):
+        return None
+    if kind == "M" and any(r[3] == "m" and i in r[0] + r[1] for r in rxns):
+        return None
+
+    def fix(x):
+        """renumber references to objects of this kind above i"""
+        if isinstance(x, list):
+            if len(x) == 3 and x[0] == "@" and x[1] == kind:
+                return ["@", kind, x[2] - (x[2] > i)]
+            return [fix(y) for y in x]
+        return x
+    dn = lambda j: j - (j > i)
+    if kind == "D":
+        del doms[i]
+    elif kind == "C":
+        del cplxs[i]
+        macros = [[[dn(j) for j in m[0]], m[1]] for m in macros]
+        rxns = [[[dn(j) for j in r[0]], [dn(j) for j in r[1]]] + r[2:] if r[3] == "c" else r for r in rxns]
+    elif kind == "M":
+        del macros[i]
+        rxns = [[[dn(j) for j in r[0]], [dn(j) for j in r[1]]] + r[2:] if r[3] == "m" else r for r in rxns]
+    else:
+        del rxns[i]
+    queries = [[[q[0][0], dn(q[0][1])] if q[0][0] == kind else q[0], q[1], fix(q[2]), q[3]] for q in queries]
+    keep = [[k, dn(j)] if k == kind else [k, j] for k, j in keep]
+    return [dk, doms, cplxs, macros, rxns, queries, keep]
+
+
+def _qr_shrink(arg, rounds=24):
+    """fewer queries (one alone, then halves, then one by one), fewer survivors, fewer objects, plain modes"""
+    from common import run_impl
+
+    def first_bad(cands):
+        if not cands:
+            return None
+        res = run_impl([("c05_query_release", c) for c in cands])
+        return next((c for c, r in zip(cands, res) if _qr_bad(r)), None)
+
+    def with_q(a, qs):
+        return a[:5] + [qs, a[6]]
+    qs = arg[5]
+    best = first_bad([with_q(arg, [q]) for q in qs] + [with_q(arg, qs[k:k + 2]) for k in range(len(qs) - 1)])
+    if best is not None:
+        arg = best
+    n = 2
+    while len(arg[5]) >= 2 and n <= len(arg[5]):
+        qs = arg[5]
+        size = (len(qs) + n - 1) // n
+        chunks = [qs[k:k + size] for k in range(0, len(qs), size)]
+        best = first_bad([with_q(arg, c) for c in chunks] +
+                         [with_q(arg, [q for j, c in enumerate(chunks) if j != k for q in c]) for k in range(len(chunks))])
+        if best is not None:
+            arg, n = best, 2
+        elif size == 1:
+            break
+        else:
+            n = min(len(qs), n * 2)
+    for _ in range(rounds):
+        dk, doms, cplxs, macros, rxns, queries, keep = arg
+        cands = [[dk, doms, cplxs, macros, rxns, queries, keep[:k] + keep[k + 1:]] for k in range(len(keep))]
+        for kind, n in (("R", len(rxns)), ("M", len(macros)), ("C", len(cplxs)), ("D", len(doms))):
+            cands += [c for c in (_qr_remove(arg, kind, i) for i in range(n)) if c is not None]
+        if any(q[3] for q in queries):
+            cands.append([dk, doms, cplxs, macros, rxns, [q[:3] + [0] for q in queries], keep])
+        best = first_bad(cands)
+        if best is None:
+            break
+        arg = best
+    return arg
+
+
+def queries_release(ctx):
+    """querying (every property, setter, method, special method), with caught errors, never prolongs a lifetime"""
+    import gen_structs as gs
+    from common import run_impl, Err
+    import time
+    t0 = time.time()
+    rng, quick = ctx.rng, ctx.tier == "quick"
+    cat = run_impl([("c05_catalogue", None)])[0]
+    if isinstance(cat, Err):
+        raise RuntimeError(f"catalogue of queries not available: {cat!r}")
+    cat = {k: [tuple(e) for e in v] for k, v in cat}
+    structs = list(gs.all_wf(5)) + [gs.random_wf(rng, rng.randrange(4, 9), p_break=0.3) for _ in range(40)]
+    args = []
+    # every entry of the catalogue once, on fixed shapes: connected, disconnected (two ways), nested, one strand, a StrandS
+    for shape in ("(+)", ".+.", "(+)+.", "((+.)+)", "(.)", "..", "strand"):
+        for keep in ([], [["D", 0]]):
+            S = _system(rng, structs, shape=shape)
+            qs = []
+            for ref in [["C", 0]] + [[k, 0] for k, n in (("D", 1), ("M", len(S[3])), ("R", len(S[4]))) if n]:
+                entries = list(cat[_cat_kind(S, ref)])
+                rng.shuffle(entries)
+                qs += [_query(rng, S, ref, n, w, default=True) for n, w in entries]
+            args.append(S + [qs, keep])
+    # random systems, random queries with arguments in and out of range, random survivors
+    for _ in range(400 if quick else 6000):
+        S = _system(rng, structs)
+        refs = _refs(S)
+        qs = []
+        for _ in range(rng.randrange(1, 9)):
+            ref = rng.choice(refs)
+            n, w = rng.choice(cat[_cat_kind(S, ref)])
+            qs.append(_query(rng, S, ref, n, w))
+            if rng.random() < 0.3:
+                qs.append(list(qs[-1]))          # the same query twice in a row (caches, remembered outcomes)
+        keep = [] if rng.random() < 0.5 else [list(x) for x in rng.sample(refs, min(len(refs), rng.randrange(1, 3)))]
+        args.append(S + [qs, keep])
+    res = run_impl([("c05_query_release", a) for a in args])
+    bad, reported, raised, nq = 0, set(), 0, 0
+    for a, r in zip(args, res):
+        nq += len(a[5])
+        if not _qr_bad(r):
+            raised += r[1]
+            continue
+        bad += 1
+        if len(reported) >= 3:
+            continue
+        small = _qr_shrink(a)
+        key = {"query_release": sorted({q[1] for q in small[5]}), "kinds": sorted({q[0][0] for q in small[5]})}
+        if repr(key) in reported:
+            continue
+        reported.add(repr(key))
+        r2 = run_impl([("c05_query_release", small)])[0]
+        ctx.violation("counterexample", {"key": key, "input": {"query_release": small},
+                                         "what": repr(r2) if isinstance(r2, Err) else "; ".join(r2[0]),
+                                         "snippet": _qr_snippet(small)})
+    ctx.add_eval(len(args), len(args))
+    ctx.cov["correspondence"]["queries-never-prolong(impl)"] = {
+        "cases": len(args), "queries": nq, "queries_that_raised": raised, "failures": bad,
+        "catalogue": {k: len(v) for k, v in cat.items()}, "wall_s": round(time.time() - t0, 1)}
+
+
 def run(ctx):
     reader_release(ctx)
     containers_while_rotating(ctx)
+    queries_release(ctx)
     # sessions of the reader: configured classes, results held across clear_io_objects (stated on the implementation)
     from common import run_oracle as _ro
     _x = _ro("c15_extra.py", {"seed": ctx.seed, "n": 25 if ctx.tier == "quick" else 300})
@@ -121,6 +434,11 @@ def replay(data):
         r = run_impl([("c05_macro_after_turns", inp["macro_after_turns"])])[0]
         print(r)
         return 1 if (isinstance(r, Err) or r) else 0
+    if isinstance(inp, dict) and "query_release" in inp:
+        from common import run_impl
+        r = run_impl([("c05_query_release", inp["query_release"])])[0]
+        print(r)
+        return 1 if _qr_bad(r) else 0
     if isinstance(inp, list) and inp and isinstance(inp[0], str):
         print("steps of harness/oracles/c15_extra.py:", inp)
         return 1
